@@ -5,7 +5,7 @@ Require Extraction.
 Require Import ExtrOcamlBasic.
 From Coq Require Import List NArith.
 Require Import SP.Base.Str SP.Lib.Quote SP.Lib.Sh SP.Lib.WinCmdline SP.Lib.MsParse.
-Require Import SP.Lib.Path SP.Lib.Env SP.Lib.ExecArgs SP.Lib.Builder SP.Lib.Pipeline SP.Lib.DropOrder SP.Lib.Status SP.Lib.Comm SP.Lib.PopenSM SP.Kernel.CommK SP.Kernel.CommSim SP.Lib.WinComm SP.Kernel.WinSim.
+Require Import SP.Lib.Path SP.Lib.Env SP.Lib.ExecArgs SP.Lib.Builder SP.Lib.Pipeline SP.Lib.DropOrder SP.Lib.Status SP.Lib.Comm SP.Lib.PopenSM SP.Kernel.CommK SP.Kernel.CommSim SP.Lib.WinComm SP.Kernel.WinSim SP.Kernel.JobCtl.
 Extraction Language OCaml.
 Separate Extraction
   Str.str_eqb Str.strs_eqb
@@ -13,7 +13,7 @@ Separate Extraction
   WinCmdline.assemble_cmdline MsParse.parse_args MsParse.parse_progname
   Path.split_path Path.prealloc_capacity Path.candidates Path.search_path_of Path.assemble_exe Path.longest_assembled Path.lookup_and_exec
   ExecArgs.prepare ExecArgs.conforms Builder.program Builder.cmd Builder.shell Builder.apply_op
-  Pipeline.build Pipeline.ppopen Pipeline.setup_comm Pipeline.pjoin Pipeline.pcapture Pipeline.leaves DropOrder.acts DropOrder.held_at_waits DropOrder.all_held
+  JobCtl.xserve JobCtl.xinit Pipeline.build Pipeline.ppopen Pipeline.setup_comm Pipeline.pjoin Pipeline.pcapture Pipeline.leaves DropOrder.acts DropOrder.held_at_waits DropOrder.all_held
   WinComm.winit WinComm.wstep WinSim.run_script
   Env.format_env Env.format_env_block Status.decode_exit_status Status.encode4 Status.decode4
   Comm.start Comm.step Comm.output CommK.init_world CommSim.serve CommSim.call_eqb
